@@ -48,6 +48,10 @@ impl<I: ConnectSyscall> ConnectSyscall for NioConnectSyscall<I> {
         let start_time = now();
         let mut left_time = send_time_limit(fd);
         let mut r = self.inner.connect(fn_ptr, fd, address, len);
+        if !blocking {
+            // the caller made the socket non-blocking, report EINPROGRESS like the native call
+            return r;
+        }
         while left_time > 0 {
             if r == 0 {
                 reset_errno();
